@@ -384,6 +384,9 @@ Step(e) ==
          /\ bad' = bad
               \* C03
               \cup Flag("C03", e.remaining = e.maxcost - e.polsum, "RemainingCost differs from MaxCost minus the accounted costs")
+              \cup FlagS("C03", "ressum" \notin DOMAIN e \/ e.remaining = e.maxcost - e.ressum,
+                               "RemainingCost differs from MaxCost minus the costs accounted for the resident keys",
+                               IF cfg.coll THEN "F9" ELSE "")
               \cup Flag("C03", raised \/ e.remaining >= 0, "RemainingCost is negative although no overwrite raised a cost and MaxCost was not lowered")
               \* C13
               \cup Flag("C13", cfg.coll \/ ToSet(e.polkeys) = ToSet(e.storekeys), "accounting and map disagree on the resident keys")
